@@ -6,7 +6,8 @@
 From Coq Require Import List Bool Lia Arith ZArith.
 From Emmet Require Import lib.Base model.MarkupTokenizer model.MarkupParser model.MarkupConvert model.MarkupResolve
      model.OutStream model.FormatHtml model.FormatIndent model.MarkupExpand
-     proofs.SafeConvert proofs.SafeResolve proofs.SafeExpand proofs.SafeBridge proofs.SafeBridgeTok proofs.BemProofs.
+     proofs.SafeConvert proofs.SafeResolve proofs.SafeExpand proofs.SafeBridge proofs.SafeBridgeTok proofs.BemProofs
+     proofs.SafeFormat model.MarkupLorem.
 Import ListNotations.
 
 (* the link: for ALL strings, whatever the parser builds from the tokenizer's output is stringifiable *)
@@ -18,7 +19,8 @@ Qed.
 Theorem parse_abbr_safe_all : forall jsx env mr s, safe_outcome (length s) (parse_abbr jsx env mr s).
 Proof. intros. apply parse_abbr_safe. apply abbr_wf_all. Qed.
 
-Theorem expand_safe : forall x s, wf_cfg (xc_m x) -> safe_outcome (length s) (expand_markup_str x s).
+(* with the lorem oracle: additionally OutOfFuel, exactly when the stream of draws ran out (SafeExpand.draws_exhausted) *)
+Theorem expand_safe : forall x s, wf_cfg (xc_m x) -> safe_or_exhausted (xc_m x) s (expand_markup_str x s).
 Proof. intros x s H. apply expand_safe_under_wf; [exact H|apply abbr_wf_all]. Qed.
 
 (* ---------------------------------------------------------------- any snippet table *)
@@ -126,15 +128,22 @@ Proof.
 Qed.
 
 Theorem expand_safe_general : forall x s,
-  snip_outcome (s :: map snd (mc_snippets (xc_m x))) (expand_markup_str x s).
+  match expand_markup_str x s with
+  | OutOfFuel => draws_exhausted (xc_m x) s
+  | r => snip_outcome (s :: map snd (mc_snippets (xc_m x))) r
+  end.
 Proof.
   intros x s. unfold expand_markup_str, expand_markup, markup_parse.
-  apply snip_bind; [|intros; exact I].
-  apply snip_bind; [|intros; exact I].
-  apply snip_bind.
+  set (vals := s :: map snd (mc_snippets (xc_m x))).
+  assert (HP : snip_outcome vals (parse_abbr (mc_jsx (xc_m x)) (mkCenv (mc_text (xc_m x)) (mc_variables (xc_m x)) (mc_href (xc_m x)))
+                                             (mc_max_repeat (xc_m x)) s)).
   { eapply safe_to_snip; [left; reflexivity|]. apply parse_abbr_safe_all. }
-  intros tree. apply snip_bind.
+  destruct (parse_abbr _ _ _ s) as [tree|k p| |] eqn:EP; cbn [bind]; try exact HP; [|destruct HP].
+  assert (HR : snip_outcome vals (walk_resolve (S (length (mc_snippets (xc_m x)))) (xc_m x) [] tree)).
   { eapply snip_mono; [|apply resolve_safe_general]. apply incl_tl, incl_refl. }
-  (* the transform pass (BEM addon included) is total *)
-  intros resolved. destruct (transform_list_ok (xc_m x) resolved) as [t Et]. rewrite Et. exact I.
+  destruct (walk_resolve _ (xc_m x) [] tree) as [resolved|k p| |] eqn:ER; cbn [bind]; try exact HR; [|destruct HR].
+  (* the transform pass: lorem draws, then the rest (BEM addon included) *)
+  pose proof (transform_total (xc_m x) resolved) as Ht.
+  destruct (transform_list (xc_m x) resolved) as [t|k p| |]; cbn [bind]; [exact I|destruct Ht|destruct Ht|].
+  exists tree, resolved. auto.
 Qed.
